@@ -2,6 +2,7 @@
 and a calendar's date-times get the calendar's own definition."""
 import calendar as _calendar
 import datetime as dt
+import re
 
 from harness.proto import enc, encl
 
@@ -397,12 +398,35 @@ def instants(rng, es, cap=24):
 
 # ------------------------------------------------------------------ implementation side
 
+def parse_component(text):
+    """the VTIMEZONE component, parsed under the default provider (closing a VTIMEZONE builds and caches a zone
+    object; under zoneinfo that step does not run get_transitions)"""
+    from icalendar import Timezone
+    from icalendar.timezone import tzp
+    tzp.use_zoneinfo()
+    return Timezone.from_ical(text)
+
+
 def build(text, prov):
+    """parse the definition and build its zone object under one provider (the path a calendar takes).
+    Since /repo 3c72455 a failure of the zone construction at END:VTIMEZONE surfaces from the parse as
+    ValueError('Invalid VTIMEZONE ...') chained to the original exception: see root_error."""
     from icalendar import Timezone
     from icalendar.timezone import tzp
     tzp.use(prov)
     try:
         return Timezone.from_ical(text).to_tz(tzp, lookup_tzid=False)
+    finally:
+        tzp.use_zoneinfo()
+
+
+def build_direct(text, prov):
+    """the direct API path: a component that already exists, Timezone.to_tz() under the provider"""
+    from icalendar.timezone import tzp
+    comp = parse_component(text)
+    tzp.use(prov)
+    try:
+        return comp.to_tz(tzp, lookup_tzid=False)
     finally:
         tzp.use_zoneinfo()
 
@@ -417,8 +441,28 @@ def at(tz, t):
     return int(d.utcoffset().total_seconds()), d.tzname(), (None if ds is None else int(ds.total_seconds()))
 
 
+def root_error(e):
+    """the exception behind a failure: Component.from_ical wraps whatever the zone construction raised at
+    END:VTIMEZONE into ValueError('Invalid VTIMEZONE <tzid>: <repr>') `from` the original"""
+    if isinstance(e, ValueError) and str(e).startswith('Invalid VTIMEZONE') and isinstance(e.__cause__, Exception):
+        return e.__cause__
+    return e
+
+
 def err_name(e):
-    return 'err:' + type(e).__name__
+    r = root_error(e)
+    if r is e and isinstance(e, ValueError) and str(e).startswith('Invalid VTIMEZONE'):
+        m = re.search(r': ([A-Za-z_]+)\(', str(e))          # cause lost: take the name from the message
+        if m:
+            return 'err:' + m.group(1)
+    return 'err:' + type(r).__name__
+
+
+def describe(e):
+    r = root_error(e)
+    if r is e:
+        return f'{type(e).__name__}: {e}'
+    return f'{type(r).__name__} (reported by from_ical as ValueError: {e})'
 
 
 # ------------------------------------------------------------------ correspondence
@@ -433,10 +477,10 @@ def correspondence(ctx):
         es = entries(d)
         nt = len(es) >= 2
         try:
-            times, infos = Timezone.from_ical(text).get_transitions()
+            times, infos = parse_component(text).get_transitions()
             impl = ';'.join(f'{secs(tm)}:{int(i[0].total_seconds())}:{int(i[1].total_seconds())}:{enc(i[2])}'
                             for tm, i in zip(times, infos))
-        except AssertionError as e:
+        except Exception as e:  # noqa: BLE001
             impl = err_name(e)
         ctx.corr('tz_trans', [mo], impl, nt)
         ctx.count('family:' + d['family'])
@@ -447,21 +491,35 @@ def correspondence(ctx):
         try:
             tz = build(text, 'pytz')
             impl = ';'.join(f'{o}:{ds}:{enc(nm)}' for o, nm, ds in (at(tz, t) for t in ins))
-        except AssertionError as e:
+        except Exception as e:  # noqa: BLE001
+            # parse path: the AssertionError of get_transitions arrives wrapped in ValueError; direct path: bare
             impl = err_name(e)
+            try:
+                build_direct(text, 'pytz')
+                direct = 'ok'
+            except Exception as e2:  # noqa: BLE001
+                direct = err_name(e2)
+            ctx.count('zone-construction-raises:' + impl)
+            if direct != impl:
+                impl += '|direct-api:' + direct
         ctx.corr('tz_lookup', [mo, insf], impl, nt)
-        if d['family'] == 'pair' and tame_for_dateutil(d):
-            tz = build(text, 'zoneinfo')
-            named = all(o['tzname'] is not None for o in d['obs'])
-            if named:
+        if d['family'] == 'pair' and tame_for_dateutil(d) and all(o['tzname'] is not None for o in d['obs']):
+            try:
+                tz = build(text, 'zoneinfo')
                 impl = ';'.join(f'{o}:{enc(nm)}:{0 if ds == 0 else 1}' for o, nm, ds in (at(tz, t) for t in ins))
-                ctx.corr('tz_spec', [mo, insf], impl, nt)
+            except Exception as e:  # noqa: BLE001
+                impl = err_name(e)
+            ctx.corr('tz_spec', [mo, insf], impl, nt)
     # second-valued offsets: the rounding of _extract_offsets
     for s in [0, 29, 30, 31, 59, 60, 89, 90, 3599, 3630, 86399, -1, -29, -30, -31, -60, -3599, -3630, 9015, -9015, 50400, -43200]:
         d = {'tzid': 'X/R', 'family': 'round', 'obs': [{'kind': 'STANDARD', 'dtstart': dt.datetime(2000, 1, 1), 'off_from': s,
                                                       'off_to': -s, 'tzname': 'R', 'rule': None}]}
-        times, infos = Timezone.from_ical(vtimezone_text(d)).get_transitions()
-        ctx.corr('tz_trans', [model_obs(d)], f'{secs(times[0])}:{int(infos[0][0].total_seconds())}:0:{enc("R")}', True)
+        try:
+            times, infos = parse_component(vtimezone_text(d)).get_transitions()
+            impl = f'{secs(times[0])}:{int(infos[0][0].total_seconds())}:0:{enc("R")}'
+        except Exception as e:  # noqa: BLE001
+            impl = err_name(e)
+        ctx.corr('tz_trans', [model_obs(d)], impl, True)
     from icalendar.timezone import tzp
     for s in ['', '/', '//', '/a', 'a/', '/a/b/', 'a//b', '///a///', 'Europe/Berlin', '/Europe/Berlin', ' /a/ ']:
         ctx.corr('tz_strip', [enc(s)], enc(tzp.clean_timezone_id(s)), '/' in s)
@@ -563,7 +621,11 @@ def run_history(hist, prov):
     res = []
     try:
         for cal in hist:
-            c = Calendar.from_ical(cal_text(cal))
+            try:
+                c = Calendar.from_ical(cal_text(cal))
+            except Exception as e:  # noqa: BLE001
+                res.append([err_name(e)])
+                continue
             r = []
             for ev in c.walk('VEVENT'):
                 d = ev['DTSTART'].dt
@@ -632,8 +694,14 @@ def check_definition(ctx, d):
         try:
             tz = build(text, prov)
         except Exception as e:  # noqa: BLE001
-            ctx.violation('build', {'vtimezone': text, 'provider': prov}, f'to_tz raised {type(e).__name__}: {e}',
-                          classify(d, prov, None, es))
+            cls = classify(d, prov, None, es)
+            ctx.violation('build', {'vtimezone': text, 'provider': prov},
+                          f'parsing the definition and building its zone under {prov} raised {describe(e)}', cls)
+            try:        # the same definition through the direct API (component exists already)
+                build_direct(text, prov)
+            except Exception as e2:  # noqa: BLE001
+                ctx.violation('build-direct', {'vtimezone': text, 'provider': prov, 'direct': True},
+                              f'Timezone.to_tz() under {prov} raised {describe(e2)}', cls)
             continue
         bad = None
         got_all = []
@@ -683,6 +751,10 @@ def check_history(ctx, hist, prov):
                 own.setdefault(c, k)
         ui = 0
         defined_so_far = set()
+        if got[ci] and got[ci][0].startswith('err:'):
+            ctx.violation('history-parse-raises', {'history': hist, 'provider': prov, 'calendar': ci},
+                          f'Calendar.from_ical raised {got[ci][0][4:]} for calendar {ci + 1} of the history', None)
+            continue
         for kind, i, k in cal:
             c = strip_slash(i)
             if kind == 'v':
@@ -727,11 +799,11 @@ def replay(ctx, data):
         text = inp['vtimezone']
         for prov in ([inp['provider']] if 'provider' in inp else ['pytz', 'zoneinfo']):
             try:
-                tz = build(text, prov)
+                tz = build_direct(text, prov) if inp.get('direct') else build(text, prov)
                 if 't' in inp:
                     print(prov, 'at', inp['t'], '->', at(tz, inp['t']))
             except Exception as e:  # noqa: BLE001
-                print(prov, 'raised', type(e).__name__, e)
+                print(prov, 'raised', describe(e))
         print('expected:', data.get('detail'))
         return 1
     for v in ctx.violations:
